@@ -18,7 +18,7 @@ ASSUMPTIONS = [
     "not judged: executions whose reference values reach 2^31-1 (C20), sources needing >= 1024 rewrites, duplicate labels/parameters",
 ]
 
-VARIANTS = ["canonical", "layout", "files", "libmacros", "libmacros-layout", "rndmacros", "boundary", "nestedcalls"]
+VARIANTS = ["canonical", "layout", "files", "libmacros", "libmacros-layout", "rndmacros", "boundary", "nestedcalls", "big"]
 PER_CHUNK = 60
 
 
@@ -33,6 +33,9 @@ def make_source(r, variant):
     o = programs.Opts()
     if variant == "boundary":
         o.boundary = True
+    if variant == "big":
+        # many definitions (high label numbers, long jump distances), long bodies, deep nesting, more parameters
+        o = programs.Opts(max_defs=8, max_params=4, max_depth=5, main_len=(6, 20), body_len=(2, 6), call_depth=3, p_label=0.3)
     if variant in ("libmacros", "libmacros-layout"):
         return macrosets.library_program(r, layout=(variant == "libmacros-layout"))
     if variant == "rndmacros":
